@@ -1,6 +1,6 @@
 //! Generate ingredients lists from recipes
 
-use std::collections::BTreeMap;
+use std::collections::{btree_map::Entry, BTreeMap};
 
 use serde::Serialize;
 
@@ -208,12 +208,17 @@ impl IngredientList {
         let mut categorized = CategorizedIngredientList::default();
         for (name, quantity) in self.0 {
             if let Some(info) = iifno.get(name.as_str()) {
-                categorized
+                let category = categorized
                     .categories
                     .entry(info.category.to_string())
-                    .or_default()
-                    .0
-                    .insert(info.common_name.to_string(), quantity);
+                    .or_default();
+                // several listed names can share the common name: keep them all
+                match category.0.entry(info.common_name.to_string()) {
+                    Entry::Vacant(entry) => {
+                        entry.insert(quantity);
+                    }
+                    Entry::Occupied(mut entry) => entry.get_mut().absorb(quantity),
+                }
             } else {
                 categorized.other.0.insert(name, quantity);
             }
